@@ -288,6 +288,35 @@ main (int argc, char **argv)
   for (int b0 = 1; b0 < 256; b0++)
     if ((b0 <= 0x20 || b0 >= 0x7f) && vh_mine (idx++))
       by_first_byte (b0);
+  if (vh_thorough)
+    {
+      /* every printable string of length 5 that starts with '$' or '_' (where all the multi-character tags live) */
+      for (int lead = 0; lead < 2; lead++)
+        for (int b1 = 0x21; b1 < 0x7f && !vh_expired (); b1++)
+          if (vh_mine (idx++))
+            {
+              char s5[8];
+              s5[0] = lead ? '_' : '$';
+              s5[1] = (char) b1;
+              s5[5] = 0;
+              for (int b2 = 0x21; b2 < 0x7f; b2++)
+                for (int b3 = 0x21; b3 < 0x7f; b3++)
+                  for (int b4 = 0x21; b4 < 0x7f; b4++)
+                    {
+                      s5[2] = (char) b2;
+                      s5[3] = (char) b3;
+                      s5[4] = (char) b4;
+                      int want = classify (s5), got = lib_class (s5);
+                      vh_stat ("length5", 1);
+                      if (want != got)
+                        {
+                          report ("classification", s5, want, got, "len5");
+                          b2 = b3 = 0x7f;
+                          break;
+                        }
+                    }
+            }
+    }
   vh_done ();
   return 0;
 }
